@@ -30,6 +30,7 @@ func runStrictConcurrent(h *Harness, j int) {
 	h.S.pPre = uint64(pre) * (1 << 32) / 1000
 	h.S.pDelayDen, h.S.delayFor = Pick(tp, 0, 5, 10), Pick(tp, 2*time.Second, 20*time.Second)
 	h.S.pHoldDen, h.S.holdFor = Pick(tp, 0, 4, 8), Pick(tp, 2*time.Second, 10*time.Second)
+	h.S.stallSteps = Pick(tp, 0, 30, 300)
 	sc["scenario"], sc["backend"], sc["origin"], sc["fetch"], sc["handshakes"], sc["pre"] = "strict-concurrent", backend, state, fetch, nh, pre
 	h.R.NonTrivial = true
 	h.R.Config = "faulty"
